@@ -177,37 +177,124 @@ func c09Generate(r *common.Rand, overlap bool) mCase {
 	return c
 }
 
+// ---- exhaustive sub-space (thorough tier) --------------------------------
+// n = 2, two EVENTs with distinct ids in flight: all 24 orders of the four
+// replies x all 16 verdict combinations; n = 3, one EVENT: all 6 reply orders
+// x all 8 verdict combinations; the same for COUNT with counts from {0,1,2}
+// (n = 2, one request: 2 orders x 9 combinations; n = 3: 6 orders x 27).
+
+func permutations(k int) [][]int {
+	if k == 0 {
+		return [][]int{{}}
+	}
+	var out [][]int
+	for _, p := range permutations(k - 1) {
+		for pos := 0; pos <= len(p); pos++ {
+			q := append(append(append([]int{}, p[:pos]...), k-1), p[pos:]...)
+			out = append(out, q)
+		}
+	}
+	return out
+}
+
+func c09Exhaustive() []mCase {
+	var out []mCase
+	reason := func(child int, acc bool) (string, string) {
+		if acc {
+			return "", ""
+		}
+		return []string{"blocked: ", "invalid: ", "error: "}[child], []string{"b0", "i1", "e2"}[child]
+	}
+	// n = 2, ids x1 and x2 in flight together
+	type rep struct {
+		child int
+		id    string
+	}
+	reps := []rep{{0, "x1"}, {0, "x2"}, {1, "x1"}, {1, "x2"}}
+	for _, perm := range permutations(4) {
+		for v := 0; v < 16; v++ {
+			c := mCase{N: 2, Steps: []mStep{{K: "event", ID: "x1"}, {K: "event", ID: "x2"}}}
+			for _, k := range perm {
+				acc := v&(1<<k) != 0
+				p, m := reason(reps[k].child, acc)
+				c.Steps = append(c.Steps, mStep{K: "child", I: reps[k].child, M: &mMsg{T: "ok", ID: reps[k].id, Acc: acc, P: p, Msg: m}})
+			}
+			out = append(out, c)
+		}
+	}
+	// n = 3, one EVENT
+	for _, perm := range permutations(3) {
+		for v := 0; v < 8; v++ {
+			c := mCase{N: 3, Steps: []mStep{{K: "event", ID: "x1"}}}
+			for _, k := range perm {
+				acc := v&(1<<k) != 0
+				p, m := reason(k, acc)
+				c.Steps = append(c.Steps, mStep{K: "child", I: k, M: &mMsg{T: "ok", ID: "x1", Acc: acc, P: p, Msg: m}})
+			}
+			out = append(out, c)
+		}
+	}
+	// COUNT, n = 2 and n = 3, counts from {0,1,2}
+	for _, nn := range []int{2, 3} {
+		combos := 1
+		for i := 0; i < nn; i++ {
+			combos *= 3
+		}
+		for _, perm := range permutations(nn) {
+			for v := 0; v < combos; v++ {
+				c := mCase{N: nn, Steps: []mStep{{K: "count", Sub: "c1"}}}
+				for _, k := range perm {
+					cnt := v
+					for j := 0; j < k; j++ {
+						cnt /= 3
+					}
+					c.Steps = append(c.Steps, mStep{K: "child", I: k, M: &mMsg{T: "count", Sub: "c1", C: uint64(cnt % 3)}})
+				}
+				out = append(out, c)
+			}
+		}
+	}
+	return out
+}
+
 func init() {
 	subcmds["c09"] = func(seed uint64, n int, out *common.Out, replay string) {
+		if mergeWorkerMode() {
+			mergeWorker()
+			return
+		}
+		var cases []mCase
 		if replay != "" {
 			for _, raw := range common.ReadLines(replay) {
 				var c mCase
 				if err := json.Unmarshal(raw, &c); err != nil {
 					common.Fatalf("bad replay case: %v", err)
 				}
-				stripMergeOutputs(&c)
-				runMerge(&c)
-				out.Emit(c)
+				cases = append(cases, c)
 			}
-			return
+		} else {
+			root := common.NewRand(seed)
+			// the histories that re-use an id in flight (finding K1) are few and come last,
+			// so that a failure in the guarded class is always met (and reported) first
+			nOverlap := n / 100
+			if nOverlap < 8 {
+				nOverlap = 8
+			}
+			if nOverlap > 40 {
+				nOverlap = 40
+			}
+			if nOverlap > n {
+				nOverlap = n
+			}
+			firstOverlap := n - nOverlap
+			if n >= mergeExhaustiveFrom {
+				cases = append(cases, c09Exhaustive()...)
+			}
+			for i := 0; i < n; i++ {
+				cases = append(cases, c09Generate(root.Fork(uint64(i)), i >= firstOverlap))
+			}
 		}
-		root := common.NewRand(seed)
-		// the histories that re-use an id in flight (finding K1) are few and come last,
-		// so that a failure in the guarded class is always met (and reported) first
-		nOverlap := n / 100
-		if nOverlap < 8 {
-			nOverlap = 8
-		}
-		if nOverlap > 40 {
-			nOverlap = 40
-		}
-		if nOverlap > n {
-			nOverlap = n
-		}
-		firstOverlap := n - nOverlap
-		for i := 0; i < n; i++ {
-			c := c09Generate(root.Fork(uint64(i)), i >= firstOverlap)
-			runMerge(&c)
+		for _, c := range runMergeAll("c09", cases) {
 			out.Emit(c)
 		}
 	}
